@@ -13,8 +13,19 @@ Clauses checked on the implementation's answer to `inverse <elem-type> <A>` (and
     test |pivot| < EPSILON on a computed pivot) lets some of these through, and `inverse` then returns a finite
     matrix with entries ~1e15; known_findings.json carries an entry for C10 matching that reason.
  3. must be inverted: non-singular integer matrices with entries in -2..2 (|det| >= 1: every pivot is far above
-    EPSILON), strictly diagonally dominant well-scaled matrices, and matrices of order <= 12 with entries <= 2^8 and
-    ||A^-1||_inf <= 1000 (exact rational inverse; see `well_conditioned`).
+    EPSILON), strictly diagonally dominant well-scaled matrices, and matrices of order <= 12 that carry one of the
+    certificates of `well_conditioned` (exact rational inverse):
+      (a) entries <= 2^8 and ||A^-1||_inf <= 1000;
+      (b) AT EVERY SCALE: kappa_inf(A) <= 1000 and 1/||A^-1||_inf >= 2 EPSILON.  Every pivot a row-pivoted elimination
+          can meet is >= 1/||A^-1||_inf (see `well_conditioned`), so the code's documented refusal rule
+          (|pivot| < EPSILON, an ABSOLUTE threshold) cannot be the reason for a refusal;
+      (c) ON THE THRESHOLD: kappa_inf(A) <= 1000 and the elimination with partial pivoting (first maximum of the column)
+          is EXACT in binary64 - every multiplier, product and difference of the exact rational elimination is a
+          binary64 number, so the computed pivots are the exact ones - and every pivot is >= EPSILON in magnitude
+          (e.g. 2^-52 times a permutation matrix: each pivot is exactly EPSILON, which the rule `< EPSILON` accepts).
+    A well-conditioned matrix BELOW these scales (e.g. 2^-53 times a permutation, kappa = 1) is refused by the unmodified
+    code because its refusal rule is absolute; that is reported in the notes of each run (count and an example), not as
+    a failure: it is the other face of the recorded finding F-C10-eps4 (see the final report of the hardening pass).
  4. a returned B is n x n with finite entries, and BOTH products are the identity to within rounding,
     componentwise, exactly evaluated (u = 2^-53):
         |A B - I|_ij <= 2^8 n u   max( (|A||B|)_ij , max|A| * max_k |B_kj| )
@@ -36,8 +47,9 @@ Clauses checked on the implementation's answer to `inverse <elem-type> <A>` (and
  5. reference: for kappa_inf(A) <= 1e3 (computed exactly from the exact rational inverse)
         |B - A^-1|_ij <= 2^8 n u kappa_inf max_k |A^-1_kj|          (measured: 0.85)
  6. `inv2`: the second call is an `inverse` call like any other (clauses 1, 4 on (B, A'')).  If kappa_inf(A) <= 1e3
-    and A, B are well scaled (largest entries within 2^-20 .. 2^20, so that the absolute pivot test is far away)
-    the second call must succeed and return to A:
+    and the absolute pivot test cannot be the reason for refusing B (A, B well scaled: largest entries within
+    2^-20 .. 2^20; or B carries a certificate (b) / (c) of clause 3 with kappa <= 2000, e.g. A = 2^52 times a
+    permutation, whose inverse has pivots exactly EPSILON) the second call must succeed and return to A:
         |A'' - A|_ij <= 2^9 n u kappa_inf max|A|                      (measured: 1.24; two inversions)
  7. `inv3` sweeps (all 5^9 integer 3x3 matrices in the thorough tier): the answer carries only the outcome kind and
     a digest per matrix; the kinds are checked here against the exact integer determinant (singular <=> refused),
@@ -62,7 +74,11 @@ RULE = ("generated by `svharness C10 gen`: every 2x2 over -2..2 (x every element
         "columns scaled by 2^+-40, single entries 2^-60..2^-20; graded / already reduced columns; subnormal / near-overflow "
         "(correspondence only); sign patterns (all negative, negative column maxima, also in integers), triangular / diagonal "
         "with signed zeros, exact and near ties in the pivot column; NaN / inf entries f64 and f32 (outside the domain: square ones are compared with the model for returns-vs-panics only); "
-        "larger non-square shapes; non-trivial = the model returns a matrix of order >= 1 (for a sweep: "
+        "larger non-square shapes; threshold scales (third seeded round): permutations (cyclic shifts, random), signed / scaled "
+        "permutations, permutations plus integer or real noise, small integers with a zero diagonal, dense dyadic with off-diagonal "
+        "column maxima, n = 2..8, times EVERY power of two 2^-60..2^60 (18 per exponent at 2^+-50..2^+-54, 5 elsewhere), two thirds as "
+        "inv2, f32 where representable; every cyclic shift of 2..5 rows at 2^+-51, 2^+-52, 2^+-53; one ulp on either side of EPSILON "
+        "and 1/EPSILON; non-trivial = the model returns a matrix of order >= 1 (for a sweep: "
         "for at least one of its 125 matrices); distinct = distinct request lines")
 
 U53 = Fraction(1, 2 ** 53)
@@ -183,17 +199,107 @@ def _diag_dominant(A):
     return rows or cols
 
 
-def well_conditioned(A):
-    """certificate (exact arithmetic) that partial pivoting meets only pivots far above EPSILON, so that the matrix
-    must be inverted: entries <= 2^8 (well scaled), order <= 12 and ||A^-1||_inf <= 1000.  In exact arithmetic the
-    active block S of a row-pivoted elimination is a Schur complement of a row permutation of A, S^-1 is a sub-block
-    of the permuted inverse, so the first column c of S has max|c_i| >= 1/||S^-1||_inf >= 1/||A^-1||_inf >= 1e-3; the
-    computed factors are exact for A + E with |E| <= gamma_n |L||U| <= n 2^(n-1) max|A| gamma_n < 1e-8."""
-    n = len(A)
-    if n == 0 or n > 12 or any(abs(x) > 256 for r in A for x in r):
+EPS = 2.0 ** -52
+
+
+def _representable(q):
+    """the rational q is a binary64 number (no rounding when it is the result of an operation)"""
+    try:
+        return Fraction(float(q)) == q
+    except OverflowError:
         return False
+
+
+def exact_pivots(A):
+    """Elimination with partial pivoting (first maximum of the column, rows exchanged, multipliers l = a_ik/a_kk, updates
+    a_ij - l a_kj) in exact rationals.  Returns the list of pivots when EVERY intermediate quantity (multiplier, product,
+    difference) is a binary64 number - the floating-point elimination then performs the same operations without any
+    rounding and meets exactly these pivots - and None otherwise (or when a pivot column vanishes)."""
+    n = len(A)
+    M = [[Fraction(x) for x in r] for r in A]
+    piv = []
+    for k in range(n):
+        p = k
+        for r in range(k + 1, n):
+            if abs(M[r][k]) > abs(M[p][k]):
+                p = r
+        if M[p][k] == 0:
+            return None
+        if p != k:
+            M[k], M[p] = M[p], M[k]
+        d = M[k][k]
+        piv.append(d)
+        for i in range(k + 1, n):
+            if M[i][k] == 0:
+                continue
+            l = M[i][k] / d
+            if not _representable(l):
+                return None
+            for j in range(k + 1, n):
+                if M[k][j] != 0:
+                    t = l * M[k][j]
+                    v = M[i][j] - t
+                    if not (_representable(t) and _representable(v)):
+                        return None
+                    M[i][j] = v
+            M[i][k] = Fraction(0)
+    return piv
+
+
+def well_conditioned(A, kappa_max=None):
+    """certificate (exact arithmetic) that the code's refusal rule |pivot| < EPSILON cannot be the reason for refusing A, so
+    that the matrix must be inverted; returns the reason or None.  Order <= 12.
+    In exact arithmetic the active block S of a row-pivoted elimination is a Schur complement of a row permutation of A,
+    S^-1 is a sub-block of the permuted inverse, so the first column c of S has max|c_i| >= 1/||S^-1||_inf >=
+    1/||A^-1||_inf; the computed factors are exact for A + E with |E| <= gamma_n |L||U| <= n 2^(n-1) max|A| gamma_n, and
+    ||A^-1|| ||E|| <= kappa n^2 2^(n-1) n u < 1e-6 for kappa <= 2000, n <= 12: every computed pivot is >=
+    (1 - 1e-6) / ||A^-1||_inf.
+      (a) entries <= 2^8 and ||A^-1||_inf <= 1000: pivots >= 1e-3 (1 - 1e-6);
+      (b) kappa_inf(A) <= kappa_max and 1/||A^-1||_inf >= 2 EPSILON: pivots >= 2 EPSILON (1 - 1e-6) > EPSILON;
+      (c) kappa_inf(A) <= kappa_max, the elimination is exact in binary64 (`exact_pivots`) and every pivot is >= EPSILON
+          in magnitude (the refusal rule is `<`)."""
+    n = len(A)
+    if n == 0 or n > 12:
+        return None
     Ainv = exact_inverse(A)
-    return Ainv is not None and _norm_inf(Ainv) <= KAPPA_MAX
+    if Ainv is None:
+        return None
+    ninv = _norm_inf(Ainv)
+    if all(abs(x) <= 256 for r in A for x in r) and ninv <= KAPPA_MAX:
+        return "well scaled (entries <= 2^8) with ||A^-1||_inf <= 1000"
+    if kappa_max is None:
+        kappa_max = KAPPA_MAX
+    kap = _norm_inf([[Fraction(x) for x in r] for r in A]) * ninv
+    if kap > kappa_max:
+        return None
+    if 1 / ninv >= 2 * Fraction(EPS):
+        return "kappa_inf = %.3g and every pivot >= 1/||A^-1||_inf = %.3g >= 2 EPSILON" % (float(kap), float(1 / ninv))
+    piv = exact_pivots(A)
+    if piv is not None and all(abs(d) >= Fraction(EPS) for d in piv):
+        return ("kappa_inf = %.3g, the elimination is exact in binary64 and its smallest pivot is %.17g >= EPSILON"
+                % (float(kap), float(min(abs(d) for d in piv))))
+    return None
+
+
+def _small_scale_well_conditioned(A):
+    """A well-conditioned matrix (order <= 8, exact kappa_inf <= KAPPA_MAX, entries in the safe range) whose scale is
+    below the ABSOLUTE refusal threshold: no certificate of `well_conditioned` applies because a pivot can be < EPSILON
+    although the matrix is perfectly regular (2^-53 times a permutation).  The statement promises the inverse (and the
+    return of the inverse of the inverse) for well-conditioned matrices at every scale, so a refusal here is a failure
+    of its own class: open finding F-C10-abs-scale."""
+    n = len(A)
+    if not (1 <= n <= 8) or any(len(r) != n for r in A):
+        return None
+    if any(x != 0 and not (SAFE_LO <= abs(x) <= SAFE_HI) for r in A for x in r):
+        return None
+    Ainv = exact_inverse(A)
+    if Ainv is None:
+        return None
+    kap = _norm_inf([[Fraction(x) for x in r] for r in A]) * _norm_inf(Ainv)
+    if kap > KAPPA_MAX:
+        return None
+    return ("the absolute pivot threshold refuses a well-conditioned matrix of small scale (kappa_inf = %.3g, "
+            "1/||A^-1||_inf = %.3g < 2 EPSILON)" % (float(kap), float(1 / _norm_inf(Ainv))))
 
 
 def expectation(A):
@@ -332,10 +438,18 @@ def judge(A, h, w, kind, Bt, stats=None):
     if any(x != 0 and not (SAFE_LO <= abs(x) <= SAFE_HI) for r in A for x in r):
         return None
     exp, why = expectation(A)
-    if exp is None and kind == "err singular" and well_conditioned(A):
-        exp, why = True, "well scaled (entries <= 2^8) with ||A^-1||_inf <= 1000"
+    if exp is None and kind == "err singular":
+        cert = well_conditioned(A)
+        if cert:
+            exp, why = True, cert
     if kind == "err singular":
-        return f"refused as singular: {why}" if exp is True else None
+        if exp is True:
+            return f"refused as singular: {why}"
+        if exp is None:
+            small = _small_scale_well_conditioned(A)
+            if small:
+                return "refused as singular: " + small
+        return None
     if exp is False:
         return f"inverted although it cannot be: {why}"
     r = check_returned(A, Bt, stats=stats)
@@ -403,12 +517,19 @@ def oracle(req, impl, stats=None):
         Ainv = exact_inverse(A)
         if Ainv is not None:
             kap = _norm_inf([[Fraction(x) for x in r] for r in A]) * _norm_inf(Ainv)
-    conditioned = kap is not None and kap <= KAPPA_MAX and _well_scaled(A) and _well_scaled(B)
+    conditioned = kap is not None and kap <= KAPPA_MAX and (
+        (_well_scaled(A) and _well_scaled(B)) or
+        (all(x == 0 or SAFE_LO <= abs(x) <= SAFE_HI for r_ in A for x in r_) and
+         all(x == 0 or SAFE_LO <= abs(x) <= SAFE_HI for r_ in B for x in r_) and
+         well_conditioned(B, kappa_max=2 * KAPPA_MAX) is not None))
     if kind2 == "err singular":
         if n == 0:
             return "inverse of the inverse of the empty matrix refused"
         if conditioned:
             return f"inverse of the inverse refused as singular although kappa_inf(A) = {float(kap):.3g}"
+        small = _small_scale_well_conditioned(B) if _finite(B) else None
+        if small:
+            return "inverse of the inverse refused as singular: " + small
         return None
     if kind2 != "ok":
         return "unrecognised answer " + kind2
@@ -633,6 +754,42 @@ def finish(rows, tier):
                 for k in worst:
                     if k in st and st[k] > worst[k]:
                         worst[k] = st[k]
+    # well-conditioned matrices (order <= 8, kappa_inf <= 1000, exact) that were refused as singular: possible only
+    # through the absolute refusal rule |pivot| < EPSILON (everything with a certificate of clause 3 is a failure, not a note)
+    refused = []
+    cands = [(req, impl) for (req, impl, horc, model) in rows
+             if (req.startswith("inverse ") or req.startswith("inv2 ")) and "err singular" in impl]
+    rstep = max(1, len(cands) // 3000)
+    for (req, impl) in cands[::rstep]:
+        try:
+            cmd, ty, h, w, A = _parse_request(req)
+            ti = impl.split()
+            if ti[0] == "ok":
+                kind, Bt, rest = _parse_obs(ti)
+                A = Bt[2]                  # the refused matrix is the computed inverse
+                what = "inverse of the inverse of"
+            else:
+                what = "inverse of"
+            if h != w or not (1 <= h <= 8) or not _finite(A):
+                continue
+            if any(x != 0 and not (SAFE_LO <= abs(x) <= SAFE_HI) for r in A for x in r):
+                continue
+            Ainv = exact_inverse(A)
+            if Ainv is None:
+                continue
+            kap = _norm_inf([[Fraction(x) for x in r] for r in A]) * _norm_inf(Ainv)
+            if kap <= KAPPA_MAX:
+                refused.append((float(kap), float(1 / _norm_inf(Ainv)), what, req))
+        except Exception:
+            continue
+    if refused:
+        refused.sort(key=lambda z: -z[1])
+        k, piv, what, rq = refused[0]
+        notes.append(f"{len(refused)} well-conditioned matrices (order <= 8, exact kappa_inf <= 1000) among every {rstep}-th of the "
+                     f"{len(cands)} refused ones were refused as singular: all have "
+                     f"1/||A^-1||_inf < 2 EPSILON (largest: {piv:.3g}, kappa_inf {k:.3g}, {what} `{rq[:400]}`): the refusal rule "
+                     "|pivot| < EPSILON is absolute (the other face of F-C10-eps4); no such matrix at or above the threshold "
+                     "scale is refused (that would be an oracle failure, clause 3 / 6)")
     notes.append(f"exhaustive 2x2 over -2..2: {len(seen2)}/625 matrices")
     if len(seen2) != 625:
         notes.append("INCOMPLETE: the 2x2 space was not covered")
